@@ -4,6 +4,8 @@ package main
 import (
 	"fmt"
 	"go/ast"
+	"go/token"
+	"strconv"
 	"strings"
 
 	. "verifharness/genlib"
@@ -13,6 +15,220 @@ func main() {
 	repo := Repo()
 	Header(repo)
 	genC19(repo)
+	genC19Wiring(repo)
+}
+
+// ---------------------------------------------------------------------------------------------
+// Block wiring: the BeginBlockers / EndBlockers lists of the runtime module config in app/ (the
+// composite literal with the keys BeginBlockers / EndBlockers), every element resolved to the module's
+// name: a string literal is taken as it is; `pkg.Const` is resolved through the file's imports — packages
+// of the repository are parsed for the constant, well-known external packages come from the table below,
+// anything else is printed as "?<import path>.<const>" (Sites.classify then treats it as message-executing).
+
+var externalModuleNames = map[string]string{
+	"github.com/CosmWasm/wasmd/x/wasm/types":                                       "wasm",
+	"github.com/cosmos/cosmos-sdk/x/auth/types":                                    "auth",
+	"github.com/cosmos/cosmos-sdk/x/auth/vesting/types":                            "vesting",
+	"github.com/cosmos/cosmos-sdk/x/authz":                                         "authz",
+	"github.com/cosmos/cosmos-sdk/x/bank/types":                                    "bank",
+	"github.com/cosmos/cosmos-sdk/x/capability/types":                              "capability",
+	"github.com/cosmos/cosmos-sdk/x/consensus/types":                               "consensus",
+	"github.com/cosmos/cosmos-sdk/x/crisis/types":                                  "crisis",
+	"github.com/cosmos/cosmos-sdk/x/distribution/types":                            "distribution",
+	"github.com/cosmos/cosmos-sdk/x/evidence/types":                                "evidence",
+	"github.com/cosmos/cosmos-sdk/x/feegrant":                                      "feegrant",
+	"github.com/cosmos/cosmos-sdk/x/genutil/types":                                 "genutil",
+	"github.com/cosmos/cosmos-sdk/x/gov/types":                                     "gov",
+	"github.com/cosmos/cosmos-sdk/x/group":                                         "group",
+	"github.com/cosmos/cosmos-sdk/x/mint/types":                                    "mint",
+	"github.com/cosmos/cosmos-sdk/x/nft":                                           "nft",
+	"github.com/cosmos/cosmos-sdk/x/params/types":                                  "params",
+	"github.com/cosmos/cosmos-sdk/x/slashing/types":                                "slashing",
+	"github.com/cosmos/cosmos-sdk/x/staking/types":                                 "staking",
+	"github.com/cosmos/cosmos-sdk/x/upgrade/types":                                 "upgrade",
+	"github.com/cosmos/ibc-go/modules/light-clients/08-wasm/types":                 "08-wasm",
+	"github.com/cosmos/ibc-go/v7/modules/apps/27-interchain-accounts/types":        "interchainaccounts",
+	"github.com/cosmos/ibc-go/v7/modules/apps/29-fee/types":                        "feeibc",
+	"github.com/cosmos/ibc-go/v7/modules/apps/transfer/types":                      "transfer",
+	"github.com/cosmos/ibc-go/v7/modules/core/exported":                            "ibc",
+}
+
+const repoModule = "github.com/NibiruChain/nibiru/v2/"
+
+func genC19Wiring(repo string) {
+	appFiles := ParseDir(repo + "/app")
+	// package-level `name = []string{…}` variables of package app, with the file they live in
+	type pkgVar struct {
+		file File
+		val  ast.Expr
+	}
+	vars := map[string]pkgVar{}
+	for _, fl := range appFiles {
+		for _, d := range fl.F.Decls {
+			gd, ok := d.(*ast.GenDecl)
+			if !ok || gd.Tok != token.VAR {
+				continue
+			}
+			for _, sp := range gd.Specs {
+				vs := sp.(*ast.ValueSpec)
+				for i, n := range vs.Names {
+					if i < len(vs.Values) {
+						vars[n.Name] = pkgVar{fl, vs.Values[i]}
+					}
+				}
+			}
+		}
+	}
+	constCache := map[string]map[string]string{}
+	repoConst := func(path, name string) (string, bool) {
+		if _, ok := constCache[path]; !ok {
+			m := map[string]string{}
+			for _, fl := range ParseDir(repo + "/" + strings.TrimPrefix(path, repoModule)) {
+				for _, d := range fl.F.Decls {
+					gd, ok := d.(*ast.GenDecl)
+					if !ok || gd.Tok != token.CONST {
+						continue
+					}
+					for _, sp := range gd.Specs {
+						vs := sp.(*ast.ValueSpec)
+						for i, n := range vs.Names {
+							if i < len(vs.Values) {
+								if bl, ok := vs.Values[i].(*ast.BasicLit); ok && bl.Kind == token.STRING {
+									if v, err := strconv.Unquote(bl.Value); err == nil {
+										m[n.Name] = v
+									}
+								}
+							}
+						}
+					}
+				}
+			}
+			constCache[path] = m
+		}
+		v, ok := constCache[path][name]
+		return v, ok
+	}
+	imports := func(fl File) map[string]string {
+		m := map[string]string{}
+		for _, im := range fl.F.Imports {
+			path, _ := strconv.Unquote(im.Path.Value)
+			name := path[strings.LastIndex(path, "/")+1:]
+			if im.Name != nil {
+				name = im.Name.Name
+			}
+			m[name] = path
+		}
+		return m
+	}
+	var resolveList func(fl File, e ast.Expr, depth int) []string
+	var resolveElems func(fl File, elts []ast.Expr, depth int) []string
+	resolveList = func(fl File, e ast.Expr, depth int) []string {
+		switch x := e.(type) {
+		case *ast.Ident:
+			if v, ok := vars[x.Name]; ok && depth < 4 {
+				return resolveList(v.file, v.val, depth+1)
+			}
+		case *ast.CompositeLit:
+			return resolveElems(fl, x.Elts, depth)
+		}
+		return []string{"?" + Nospace(e)}
+	}
+	resolveElems = func(fl File, elts []ast.Expr, depth int) []string {
+		{
+			imps := imports(fl)
+			var out []string
+			for _, el := range elts {
+				switch y := el.(type) {
+				case *ast.BasicLit:
+					if v, err := strconv.Unquote(y.Value); err == nil && y.Kind == token.STRING {
+						out = append(out, v)
+						continue
+					}
+				case *ast.SelectorExpr:
+					if id, ok := y.X.(*ast.Ident); ok {
+						path := imps[id.Name]
+						if strings.HasPrefix(path, repoModule) {
+							if v, ok := repoConst(path, y.Sel.Name); ok {
+								out = append(out, v)
+								continue
+							}
+						} else if v, ok := externalModuleNames[path]; ok && y.Sel.Name == "ModuleName" {
+							out = append(out, v)
+							continue
+						}
+						out = append(out, "?"+path+"."+y.Sel.Name)
+						continue
+					}
+				}
+				out = append(out, "?"+Nospace(el))
+			}
+			return out
+		}
+	}
+	begin, end := []string{"?not-found"}, []string{"?not-found"}
+	for _, fl := range appFiles {
+		ast.Inspect(fl.F, func(n ast.Node) bool {
+			cl, ok := n.(*ast.CompositeLit)
+			if !ok {
+				return true
+			}
+			for _, el := range cl.Elts {
+				kv, ok := el.(*ast.KeyValueExpr)
+				if !ok {
+					continue
+				}
+				if id, ok := kv.Key.(*ast.Ident); ok {
+					switch id.Name {
+					case "BeginBlockers":
+						begin = resolveList(fl, kv.Value, 0)
+					case "EndBlockers":
+						end = resolveList(fl, kv.Value, 0)
+					}
+				}
+			}
+			return true
+		})
+	}
+	// an explicit ModuleManager.SetOrderEndBlockers / SetOrderBeginBlockers call in package app overrides the config
+	for _, fl := range appFiles {
+		ast.Inspect(fl.F, func(n ast.Node) bool {
+			call, ok := n.(*ast.CallExpr)
+			if !ok {
+				return true
+			}
+			sel, ok := call.Fun.(*ast.SelectorExpr)
+			if !ok || (sel.Sel.Name != "SetOrderEndBlockers" && sel.Sel.Name != "SetOrderBeginBlockers") {
+				return true
+			}
+			var l []string
+			if call.Ellipsis.IsValid() && len(call.Args) == 1 {
+				l = resolveList(fl, call.Args[0], 0)
+			} else {
+				l = resolveElems(fl, call.Args, 0)
+			}
+			if sel.Sel.Name == "SetOrderEndBlockers" {
+				end = l
+			} else {
+				begin = l
+			}
+			return true
+		})
+	}
+	// x/evm's own BeginBlock must not touch the per-block transient state: empty body
+	noop := false
+	if fd := Funcs(ParseDir(repo + "/x/evm/keeper"))["BeginBlock"]; fd != nil && fd.Body != nil {
+		noop = len(fd.Body.List) == 0
+	}
+	list := func(xs []string) string {
+		var q []string
+		for _, x := range xs {
+			q = append(q, CoqString(x))
+		}
+		return "[" + strings.Join(q, "; ") + "]"
+	}
+	fmt.Println("(* block wiring: EndBlockers / BeginBlockers of the runtime module config (app/), x/evm Keeper.BeginBlock *)")
+	fmt.Println("Definition current_wiring : wiring := {|")
+	fmt.Printf("  end_order := %s;\n  begin_order := %s;\n  evm_beginblock_noop := %s |}.\n", list(end), list(begin), CoqBool(noop))
 }
 
 func genC19(repo string) {
